@@ -114,6 +114,16 @@ def run_check(pid, tier, replay=None):
             todo.append({"id": "f-rw-%d-n" % k, "layout": "direct",
                          "ops": [{"op": "tmp", "c": b, "pause": 0, "mid": False}, {"op": "rename", "c": b, "pause": rng.choice([0, 150]), "mid": False},
                                  {"op": "write", "c": a, "pause": 0, "mid": False}, {"op": "write", "c": b, "pause": 0, "mid": True}]})
+        # an in-place rewrite racing with the watcher's own read: after an atomic replacement with content b the file is
+        # truncated at the moment the watcher hands the opened file to the decoder, then completed with the same bytes b
+        # (whatever was looked at before decoding must not count as delivered)
+        for k in range(40 if quick else 400):
+            a, b = ("g0", "g1") if k % 2 else ("g2", "g0")
+            first = [{"op": "write", "c": a, "pause": -1, "mid": False}] if a != "g0" else []
+            todo.append({"id": "f-dec-%d" % k, "layout": "direct",
+                         "ops": first + [{"op": "tmp", "c": b, "pause": 0, "mid": False}, {"op": "rename", "c": b, "pause": 0, "mid": False},
+                                         {"op": "trunc", "c": "empty", "pause": 0, "mid": False, "indec": True},
+                                         {"op": "write", "c": b, "pause": rng.choice([0, 0, 200]), "mid": False}]})
         for k in range(1 if quick else 4):
             todo.append({"id": "f-overflow-%d" % k, "layout": "overflow", "ops": []})
         results, crashes = run_cases(vh, scratch, todo, workers=8 if quick else 16, subcmd="fw")
